@@ -329,7 +329,7 @@ def run(ctx):
                     continue
                 histories.append(("exh", "m", "small", [big[j](k) for k, j in enumerate(seq)]))
     # ---- random
-    nrand = 260 if ctx.quick() else 20000
+    nrand = 900 if ctx.quick() else 20000
     for _ in range(nrand):
         histories.append(("rand", ctx.rng.weighted([("m", 70), ("s", 30)]),
                           ctx.rng.weighted([("empty", 20), ("small", 30), ("file", 25), ("clone", 25)]), None))
